@@ -425,6 +425,9 @@ CORPUS = [
     ('F12', DEF, [W('d/c.txt', b'l1\n'), T(['d/c.txt'], method='hardlink'), {'op': 'move', 'src': 'd/c.txt', 'dst': 'ünï/dätä.txt'}, RC(['ünï/dätä.txt'], method='copy')]),
     # F13 (fixed): re-track of symlinked files through a slash-containing target
     ('F13', DEF, [W('d/c.txt', b'l1\n'), W('a.txt', b'z\n'), T(['d/c.txt', 'a.txt'], method='symlink'), T(['d/c.txt', 'a.txt']), {'op': 'delete', 'path': 'd/c.txt'}, RC(['d/c.txt'])]),
+    # K7 (fixed): untrack of a hard link whose object is shared
+    ('K7', DEF, [W('a.txt', b'dup\n'), W('b.txt', b'dup\n'), T(['a.txt', 'b.txt'], method='hardlink'), {'op': 'untrack', 'targets': ['a.txt']},
+                 T(['a.txt'], method='reflink'), {'op': 'untrack', 'targets': ['a.txt', 'b.txt']}]),
     ('versions', DEF, [W('a.txt', b'v1\n'), T(['a.txt']), W('a.txt', b'v2\n'), CI(['a.txt']), W('a.txt', b'v3\n'), T(['a.txt']), {'op': 'delete', 'path': 'a.txt'}, RC(['a.txt'], method='hardlink')]),
     ('share', {'algo': 2, 'method': 'hardlink', 'tob': 'auto'}, [W('a.txt', b'dup\n'), W('b.txt', b'dup\n'), T(['a.txt', 'b.txt']), {'op': 'remove', 'targets': ['a.txt']},
                                                                   {'op': 'untrack', 'targets': ['a.txt']}, RC(['b.txt'], method='copy')]),
@@ -433,7 +436,6 @@ CORPUS = [
 # replays of known findings (open): judged by the oracles alone, never part of the differential stream
 KNOWN_REPLAYS = [
     ('K1-crlf', DEF, [W('lf.txt', b'l1\nl2\n'), W('crlf.txt', b'l1\r\nl2\r\n'), T(['lf.txt'], no_parallel=True), T(['crlf.txt'], no_parallel=True)]),
-    ('K7-hardlink-untrack', DEF, [W('a.txt', b'dup\n'), W('b.txt', b'dup\n'), T(['a.txt', 'b.txt'], method='hardlink'), {'op': 'untrack', 'targets': ['a.txt']}]),
     # two paths share one object, so for one of them the object's mtime differs from the recorded one and the digest is
     # recomputed with the configured (auto) mode instead of the recorded (binary) one
     ('K10-symlink-tob', DEF, [W('a.txt', b'l1\nl2\n'), W('b.txt', b'l1\nl2\n'), T(['a.txt', 'b.txt'], method='symlink', tob='binary', no_parallel=True),
@@ -498,17 +500,34 @@ def run_property(chk, pid, oracles, want=('main',), restore=None, nq=280, nt=300
         xs = [s for s in steps if s['cmd']['op'] not in ('write', 'delete')]
         if len(xs) >= 2 and any(s['post'].cache for s in steps if s['post']):
             chk.nontrivial.add(hashlib.sha1(json.dumps([rh.model_line(c) for c in h]).encode()).hexdigest())
-        for s, ml in zip(steps, m):
+        hm = list(h)          # the history as given to the model (targets possibly re-ordered, see below)
+        k = 0
+        while k < len(steps):
+            s, ml = steps[k], m[k]
             st_tie['commands'] += 1
             if s['rc'] not in (0, 1): st_tie['panics'] += 1
             chk.count(f"rc:{s['rc']}")
-            if ml is None: continue
+            if ml is None:
+                k += 1; continue
             d = compare_step(s, ml)
+            if d and len(hm[k].get('targets', [])) > 1:
+                # xvc processes the selected entities in HashMap (or rayon) order, the model in list order. With
+                # duplicates among the targets the outcome may depend on that order (which file's inode becomes the
+                # shared object).  The model is asked again with every permutation of this command's targets.
+                import itertools
+                for perm in itertools.permutations(hm[k]['targets']):
+                    h2 = hm[:k] + [dict(hm[k], targets=list(perm))] + hm[k + 1:]
+                    m2 = r.model_answers([(cfg, h2)])[0]
+                    if not compare_step(s, m2[k]):
+                        hm, m, d = h2, m2, None
+                        chk.count('order-permutation-needed')
+                        break
             if d:
                 st_tie['disagreements'] += 1
                 if first_dis is None:
-                    first_dis = (name, cfg, h, s, ml, d)
+                    first_dis = (name, cfg, hm, s, ml, d)
                 break
+            k += 1
         # oracles
         fails = []
         for o in oracles:
